@@ -19,14 +19,21 @@ def build(ctx):
     # kInvalidThread from the real source text
     full = r.text('dispenso/thread_id.cpp')
     import re
-    m = re.search(r'constexpr\s+uint64_t\s+kInvalidThread\s*=\s*std::numeric_limits<uint64_t>::max\(\)\s*;', full)
-    if not m:
-        raise X.ExtractionError('kInvalidThread definition changed')
+    # R4: the value of kInvalidThread is computed by compiling a probe against the real translation unit
+    src = os.path.join(ctx.scratch, 'tid_probe.cpp')
+    open(src, 'w').write('#include "%s"\n#include <cstdio>\nint main(){ std::printf("%%llu", (unsigned long long)dispenso::kInvalidThread); }\n' % os.path.join(r.root, 'dispenso/thread_id.cpp'))
+    exe = src[:-4] + '.out'
+    pr = subprocess.run(['g++', '-std=c++14', '-I', r.root, '-I', os.path.join(r.root, 'dispenso/third-party'), src, '-o', exe, '-lpthread'], capture_output=True, text=True)
+    if pr.returncode != 0:
+        raise X.ExtractionError('kInvalidThread probe failed: ' + pr.stderr[-300:])
+    kinvalid = subprocess.run([exe], capture_output=True, text=True).stdout.strip()
+    if not re.fullmatch(r'\d+', kinvalid):
+        raise X.ExtractionError('kInvalidThread probe printed %r' % kinvalid)
     m2 = re.search(r'DISPENSO_THREAD_LOCAL\s+uint64_t\s+currentThread\s*=\s*kInvalidThread\s*;', full)
     m3 = True   # the counter's initialisation (constant vs dynamic) is checked on the real translation unit by the native unit below
     if not m2 or not m3:
         raise X.ExtractionError('currentThread / nextThread declarations changed (thread_local, initial values)')
-    return [Unit('threadId', 'cbmc', 'specs/c45_threadid.c', 'threadId', defines={'KINVALID': '18446744073709551615ul'}, expect=[r'postcondition\.3'],
+    return [Unit('threadId', 'cbmc', 'specs/c45_threadid.c', 'threadId', defines={'KINVALID': kinvalid + 'ul'}, expect=[r'postcondition\.3'],
                  replay=dict(prog='replay/c45_replay.cpp', args=lambda ce, u: [])),
             Unit('thread_id.cpp static initialisation + 513-thread run', 'native', 'specs/c45_threadid.c', 'threadId', native=dict(src='replay/c45_native.cpp', args=[]), timeout=300,
                  bounded='native run of the real translation unit: an id taken during static initialisation must not be reissued (the counter is constant-initialised); 513 threads; supporting fact, not counted as proved')]
